@@ -30,6 +30,7 @@ MANIFEST = dict(
          'deleted through the entity interface are not reportable (excluded, negative witness).',
     ref='5 C01')
 DRIVERS = ['drv_c06']
+PROPERTY_MODULES = ['C01', 'C01Link']
 RULE = ('one case = (provider history, loss-free in-order delivery with a random initial load point / in-flight prefix); '
         'distinct by the abstract report list; non-trivial = at least one report accepted and one mirror comparison')
 TRUSTED = c06.TRUSTED
